@@ -274,20 +274,31 @@ func (p *Program) Pos(pos token.Pos) string {
 	return fmt.Sprintf("%s:%d:%d", f, ps.Line, ps.Column)
 }
 
-// SSA builds (once) and returns the SSA program for the whole load.
+// SSA creates (once) the SSA program for the whole load. Function bodies are
+// built lazily per package (SSAFunc / SSABuildAll): building every dependency
+// costs seconds that most rules do not need.
 func (p *Program) SSA() (*ssa.Program, []*ssa.Package) {
 	if p.ssaProg == nil {
 		var all []*packages.Package
 		all = append(all, p.Pkgs...)
 		prog, pkgs := ssautil.AllPackages(all, ssa.InstantiateGenerics)
-		prog.Build()
 		p.ssaProg, p.ssaPkgs = prog, pkgs
 	}
 	return p.ssaProg, p.ssaPkgs
 }
 
-// SSAFunc returns the SSA function of a declared function.
+// SSABuildAll builds the bodies of every package of the program (module and dependencies).
+func (p *Program) SSABuildAll() *ssa.Program {
+	prog, _ := p.SSA()
+	prog.Build()
+	return prog
+}
+
+// SSAFunc returns the SSA function of a declared function (building its package's bodies on first use).
 func (p *Program) SSAFunc(fi *FuncInfo) *ssa.Function {
 	prog, _ := p.SSA()
+	if sp := prog.Package(fi.Pkg.Types); sp != nil {
+		sp.Build()
+	}
 	return prog.FuncValue(fi.Obj)
 }
